@@ -13,8 +13,8 @@ Normal forms: `==` prints `=`; `!=` prints `<>` (one token `Neq` anyway); operat
 keywords print in their table spelling whatever the input spelling; `TRUE`/`FALSE` print in lower
 case; `REGEXP RLIKE` prints `REGEXP`; an `ESCAPE` operand (word, '…' or "…") prints as `'…'` with
 NO escaping; identifiers and literals print as stored (quoted forms through `escape_quoted_string`).
-Oddities mirrored: unary `+ - ~ @ |/ ||/ !!` are glued to their operand (`- -a` gives `--a`);
-`ILIKE ANY pat ESCAPE c` prints `ANY` glued to the pattern.
+Oddities mirrored: unary `+ - ~ @ |/ ||/ !!` are glued to their operand, except a sign directly
+before another sign (`- -a`), which gets a blank (fix commit in /repo).
 -/
 namespace SqlVerif.Pratt
 
@@ -91,6 +91,15 @@ def BinOp.tok : BinOp → Tok
 
 def binOpP (sp : Bool) (o : BinOp) : Piece := ⟨sp, o.tok, some o.display⟩
 
+/-- unary `+` / `-` -/
+def UnOp.isSign : UnOp → Bool
+  | .Plus => true | .Minus => true | _ => false
+
+/-- the expression is itself a unary `+`/`-` application -/
+def Expr.headIsSign : Expr → Bool
+  | .pre o _ _ => o.isSign
+  | _ => false
+
 /-- `Display for UnaryOperator`, prefix operators -/
 def UnOp.tok : UnOp → Tok
   | .Plus => .sym .Plus | .Minus => .sym .Minus | .Not => kwT "NOT" | .PGBitwiseNot => .sym .Tilde
@@ -165,7 +174,9 @@ def Expr.pieces : Expr → List Piece
   | .atom k toks => atomPieces k toks
   | .nested e => [symP false .LParen] ++ glued e.pieces ++ [symP false .RParen]
   | .pre .Not _ e => [kwP false "NOT"] ++ spaced e.pieces
-  | .pre o _ e => [unOpP o] ++ glued e.pieces
+  | .pre o _ e =>
+    -- a sign directly before another sign is separated by a blank (`- -a`), everything else is glued
+    [unOpP o] ++ (if o.isSign && e.headIsSign then spaced e.pieces else glued e.pieces)
   | .bin (.op o) l _ r => l.pieces ++ [binOpP true o] ++ spaced r.pieces
   | .bin (.isDistinct neg) l _ r =>
     l.pieces ++ [kwP true "IS"] ++ notP neg ++ [kwP true "DISTINCT", kwP true "FROM"] ++ spaced r.pieces
@@ -178,9 +189,8 @@ def Expr.pieces : Expr → List Piece
   | .between neg l _ lo _ hi =>
     l.pieces ++ notP neg ++ [kwP true "BETWEEN"] ++ spaced lo.pieces ++ [kwP true "AND"] ++ spaced hi.pieces
   | .likeEsc k neg any l _ pat esc =>
-    -- `ILike` writes "ANY" without the blank that `Like` writes after it
     l.pieces ++ notP neg ++ k.pieces ++ (if any then [kwP true "ANY"] else []) ++
-      (if any && k == .ILike then glued pat.pieces else spaced pat.pieces) ++ escPieces esc
+      spaced pat.pieces ++ escPieces esc
   | .inList neg l _ items =>
     l.pieces ++ notP neg ++ [kwP true "IN", symP true .LParen] ++ glued items.pieces ++ [symP false .RParen]
   | .quant o q l _ r =>
